@@ -294,7 +294,16 @@ class XsdAttribute(XsdComponent, ValidationMixin[Optional[str], DecodedValueType
             return str(value)
 
     def raw_encode(self, obj: Any, validation: str, context: EncodeContext) -> Optional[str]:
-        return self.type.raw_encode(obj, validation, context)
+        value = self.type.raw_encode(obj, validation, context)
+        if self.fixed is not None and isinstance(value, str) and value != self.fixed:
+            try:
+                is_fixed = self.type.text_decode(value) == self.type.text_decode(self.fixed)
+            except (ValueError, TypeError):
+                is_fixed = False
+            if not is_fixed:
+                msg = _("attribute {0!r} has a fixed value {1!r}").format(self.name, self.fixed)
+                context.validation_error(validation, self, msg, obj)
+        return value
 
 
 class Xsd11Attribute(XsdAttribute):
